@@ -84,7 +84,7 @@ func coverArgs() []string {
 	}
 	os.MkdirAll(d, 0o755)
 	os.Setenv("GOCOVERDIR", d)
-	return []string{"-cover", "-coverpkg=github.com/pointlander/peg/..."}
+	return []string{"-cover", "-covermode=atomic", "-coverpkg=github.com/pointlander/peg/..."}
 }
 
 // RunGo runs the go tool in dir; returns combined output.
